@@ -12,14 +12,19 @@ TRUSTED = [
 
 
 def _analyses():
-    from .analyses import a1_tables, a3_shape, a4_kind, a5_linear
+    from .analyses import a1_tables, a2_binding, a3_shape, a4_kind, a5_factor, a5_linear, a7_axis, a8_taint, kernel_trace as kt
 
     return {
+        "C01": ([a3_shape.vjp, a7_axis.hazards, a2_binding.catchall, a2_binding.variadic], "C01"),
+        "C12": ([a2_binding.layout, a2_binding.variadic], "C12"),
         "C02": ([a1_tables.lin, a1_tables.arity], "C02: structural clauses of forward-mode exactness"),
-        "C04": ([a5_linear.closures_linear, a1_tables.lin], "C04"),
+        "C04": ([a5_factor.agree, a5_linear.closures_linear, a1_tables.lin], "C04"),
         "C14": ([a1_tables.nograd, a1_tables.sym, a1_tables.none_rules, a1_tables.methods], "C14"),
-        "C07": ([a1_tables.helpers], "C07"),
+        "C07": ([a8_taint.traceable, a1_tables.helpers], "C07"),
         "C05": ([a3_shape.vjp, a3_shape.jvp], "C05"),
+        "C08": ([kt.trace_fn, kt.wrapper, kt.notrace_wrapper, kt.find_top, kt.new_trace], "C08"),
+        "C19": ([kt.global_effects, kt.trace_id_uses, kt.new_trace], "C19"),
+        "C20": ([lambda c, w: kt.global_effects(c, w, thread=True)], "C20"),
         "C09": ([a4_kind.vspace, a4_kind.match, a4_kind.match_jvp, a4_kind.modulus], "C09"),
         "C13": ([a1_tables.types], "C13"),
     }
